@@ -498,7 +498,7 @@ func c12Prop(t *rapid.T) {
 }
 
 func TestC12(t *testing.T) {
-	evid.Extra("rule", "C12: rapid-generated histories (1..5 operations quick, 1..8 thorough) of install/upgrade/rollback/uninstall whose charts carry 0-5 hooks (object names a shuffled subset of h0..h9, kinds ConfigMap/Pod/Job/Secret, 1-4 of the 8 lifecycle events, weights -5..5 with forced ties or absent, every delete-policy combination or none); in a third of the operations the completion wait of one chosen hook fails; one upgrade in five runs with --atomic (hooks on or off) and a failing readiness wait, where only 'hooks disabled => no hook object is created, also not by the internal rollback' is judged. From the global order of cluster requests and waiter calls the check compares with a reference model of the documented semantics: creation order per event (ascending weight, ties by name, stop at the first failure), each create after the previous hook completed, delete-before-create iff before-hook-creation (default when no policy), existence of every hook object afterwards per policy and outcome (including 409 on a leftover without before-hook-creation), pre-hook failure => error, no write to a release resource and no later hook, post-hook failure => error, no hook object in any stored manifest, no hook created with hooks disabled. Non-trivial = an event with at least two hooks, or a failing hook, or a leftover hook object present when hooks run; distinct by the full history with hook sets.")
+	evid.Extra("rule", "C12: rapid-generated histories (1..5 operations quick, 1..8 thorough) of install/upgrade/rollback/uninstall whose charts carry 0-5 hooks (object names a shuffled subset of h0..h9, kinds ConfigMap/Pod/Job/Secret, 1-4 of the 8 lifecycle events, weights -5..5 with forced ties or absent, every delete-policy combination or none, one list in four written with blanks around the commas); in a third of the operations the completion wait of one chosen hook fails; one upgrade in five runs with --atomic (hooks on or off) and a failing readiness wait, where only 'hooks disabled => no hook object is created, also not by the internal rollback' is judged. From the global order of cluster requests and waiter calls the check compares with a reference model of the documented semantics: creation order per event (ascending weight, ties by name, stop at the first failure), each create after the previous hook completed, delete-before-create iff before-hook-creation (default when no policy), existence of every hook object afterwards per policy and outcome (including 409 on a leftover without before-hook-creation), pre-hook failure => error, no write to a release resource and no later hook, post-hook failure => error, no hook object in any stored manifest, no hook created with hooks disabled. Non-trivial = an event with at least two hooks, or a failing hook, or a leftover hook object present when hooks run; distinct by the full history with hook sets.")
 	evid.Extra("assumptions", []string{"hook completion is a scripted waiter outcome (WatchUntilReady)", "atomic / cleanup-on-fail are off here (C03)", "hook log output policies and CRD hooks are not generated"})
 	rapid.Check(t, c12Prop)
 }
